@@ -48,6 +48,7 @@ def launch(spec, rounds):
     o_int = rs.ScenarioRunner.interpret_optimizer_results
     o_ext = Extractor.extract_results
     grabbed = {}
+    kept = []
 
     def ext(self, model, variables, time_consts):
         r = o_ext(self, model, variables, time_consts)
@@ -96,6 +97,7 @@ def launch(spec, rounds):
         rec["imm_pct"] = ci.fl(E.immediate_outdoor_crops.in_units_percent_fed().kcals)
         rec["ns_pct"] = ci.fl(E.new_stored_outdoor_crops.in_units_percent_fed().kcals)
         rounds.append(rec)
+        kept.append((rec, E, I, path))     # re-audited when the whole three-round run is over
         return I
 
     rs.ScenarioRunner.interpret_optimizer_results = interp
@@ -116,10 +118,68 @@ def launch(spec, rounds):
     finally:
         rs.ScenarioRunner.interpret_optimizer_results = o_int
         Extractor.extract_results = o_ext
+        # the clauses must hold at the END of the run too: a result object handed on to later rounds must still be the
+        # one that was returned and saved (nothing may write into its series afterwards)
+        for rec, E, I, path in kept:
+            rec["late_failures"] = late_audit(rec, E, I, path)
         try:
             os.remove("model.json")
         except OSError:
             pass
+
+
+def late_audit(rec, E, I, path):
+    """re-observe a round's Extractor / Interpreter after the whole run: identical to what was observed at return,
+    still equal to the saved csv, headline still the min over months of the per-food sums"""
+    bad = []
+    m_ = rec["title"].rsplit("_", 1)[-1]
+    site = m_ if m_.startswith("round") else "round"
+
+    def fail(what):
+        bad.append({"kind": "result-altered-after-return", "site": site, "what": what, "title": rec["title"]})
+
+    try:
+        now = ci.observe(E, I)
+    except BaseException as e:  # noqa
+        fail("result object can no longer be read at the end of the run: " + repr(e)[:200])
+        return bad
+    names = {"e": ci.E_FIELDS, "p": ci.P_FIELDS, "q": ci.Q_FIELDS, "k": [c + "_kcals_equivalent" for c in ci.CSV_COLUMNS]}
+    old = rec["obs"]
+    for grp, labels in names.items():
+        for j, lab in enumerate(labels):
+            a, b = old[grp][j], now[grp][j]
+            if a != b:
+                mm = next((m for m in range(min(len(a), len(b))) if a[m] != b[m]), None)
+                fail(f"{lab} ({grp}) changed after the round returned: " +
+                     (f"month {mm}: {a[mm]!r} at return, {b[mm]!r} at the end of the run; {sum(1 for x, y in zip(a, b) if x != y)} months differ"
+                      if mm is not None else f"length {len(a)} -> {len(b)}"))
+                break
+    if old["head"] != now["head"]:
+        fail(f"percent_people_fed changed after return: {old['head']!r} -> {now['head']!r}")
+    if old["sum"] != now["sum"]:
+        fail("monthly total (to_humans_fed_sum) changed after the round returned")
+    for w in ci.csv_check(path, now, rec["n"])[:2]:
+        fail("at the end of the run the saved table no longer matches the result object: " + w)
+    # headline vs min over months of the per-food sums, on the object as it is now
+    try:
+        pct = [ci.fl(E.stored_food_to_humans.in_units_percent_fed().kcals), ci.fl(E.outdoor_crops_to_humans.in_units_percent_fed().kcals)] + now["p"]
+        sums = [sum(s[m] for s in pct) for m in range(rec["n"])]
+        if not relclose(now["head"], min(sums), 1e-9, 1e-9):
+            fail(f"at the end of the run headline {now['head']!r} != min over months of the per-food sums {min(sums)!r}")
+        kd, pop = rec["settings"]["kcals_daily"], rec["pop"]
+        need = rec["need"]
+        # kcals-equivalent columns against the percent series of the same object (same food, two units)
+        pairs = {"seaweed": 0, "cell_sugar": 1, "scp": 2, "greenhouse": 3, "fish": 4, "meat": 5, "milk": 6}
+        for col, pj in pairs.items():
+            kj = ci.CSV_COLUMNS.index(col)
+            for m in range(rec["n"]):
+                want = now["p"][pj][m] / 100.0 * kd
+                if not relclose(now["k"][kj][m], want, 1e-9, 1e-9):
+                    fail(f"at the end of the run {col}_kcals_equivalent month {m} is {now['k'][kj][m]!r} but the percent series gives {want!r}")
+                    break
+    except BaseException as e:  # noqa
+        fail("re-audit failed: " + repr(e)[:200])
+    return bad[:6]
 
 
 # ------------------------------------------------------------------ the property, evaluated on one round
@@ -317,7 +377,7 @@ def one(job):
     for rec in rounds:
         r = slim(rec)
         r["chain_pos"] = rec.get("chain_pos", 0)
-        r["failures"] = audit_round(rec)
+        r["failures"] = audit_round(rec) + rec.get("late_failures", [])
         r["nontrivial"] = nontrivial(rec)
         if want:
             r["data"] = {k: rec[k] for k in ("n", "km", "sw_kcals", "settings", "vars", "series", "obs", "aux", "fb")}
